@@ -18,12 +18,14 @@ var _ = Service("svc", func() {
 		Error("not_found")
 		Error("conflict", CustomErr)
 		Error("gone", CustomErr)
+		Error("locked", CustomErr)
 		Error("teapot", String)
 		HTTP(func() {
 			POST("/do")
 			Response("not_found", StatusNotFound)
 			Response("conflict", StatusConflict)
 			Response("gone", StatusConflict)
+			Response("locked", StatusLocked)
 			Response("teapot", StatusTeapot)
 			Response("svc_err", StatusBadGateway)
 		})
